@@ -173,8 +173,8 @@ def follow_moves(b, root, depth=6):
     return root
 
 
-def rule_last(ctx, rep):
-    r = rep.rule("R-C11-last", "didChange: the text handed to change_text_document derives from the LAST content change "
+def rule_last(ctx, rep, rid="R-C11-last"):
+    r = rep.rule(rid, "didChange: the text handed to change_text_document derives from the LAST content change "
                                "(full-document sync: later events supersede earlier ones)", floor=1)
     hb = ctx.prog.get(LSP + "::handle_notification")
     if not hb:
@@ -191,7 +191,7 @@ def rule_last(ctx, rep):
             if rt and "content_changes" in fields_of(rt):
                 sites.append(c)
     if not sites:
-        rep.error("R-C11-last", "no use of params.content_changes found in handle_notification")
+        rep.error(rid, "no use of params.content_changes found in handle_notification")
         return
     # forward slice: calls that consume the result of those calls
     chain = []
